@@ -20,7 +20,9 @@ EXTENDS MeshTopology, Fx
 \*    dirs : for every local facet slot the pair <<a, b>> of local vertices along which the facet functions
 \*           are ordered / whose difference defines the facet normal,
 \*    directed : TRUE iff the facet functions depend on that direction (several DOFs per facet, or a signed
-\*               normal-derivative DOF), sign : "none" | "hdiv" | "hcurl"]
+\*               normal-derivative DOF), sign : "none" | "hdiv" | "hcurl",
+\*    tdirs : (hcurl, 2-D) for every local facet slot the pair <<a, b>> of local vertices along which the
+\*            tangent of the REFERENCE shape function points (read off lbasis)]
 
 \* ---- dofs.py:264-334 (0-based numbers as in the code) ----
 NumberDofsImpl(c, L) ==
@@ -82,6 +84,11 @@ SignsOpposite(c, L) ==
 SignHcurl(c, k, a, b) == IF c.t[k][a] > c.t[k][b] THEN -1 ELSE 1
 \* the global direction of the oriented tangent: local direction a -> b, reversed when the sign is -1
 OrientedEdge(c, k, a, b) == IF SignHcurl(c, k, a, b) = 1 THEN <<c.t[k][a], c.t[k][b]>> ELSE <<c.t[k][b], c.t[k][a]>>
+\* 2-D: global direction of the tangent of the facet function of slot s: the reference tangent runs along
+\* tdirs[s]; the sign is computed from the facet's local vertex pair lf[s] (element_hcurl.py:22-28)
+OrientedTangent(c, L, k, s) ==
+  LET g == <<c.t[k][L.tdirs[s][1]], c.t[k][L.tdirs[s][2]]>> IN
+  IF SignHcurl(c, k, c.lf[s][1], c.lf[s][2]) = 1 THEN g ELSE <<g[2], g[1]>>
 SignsEqual(c, L) ==
   (L.sign = "hcurl") =>
     IF Has3D(c.kind)
@@ -91,7 +98,7 @@ SignsEqual(c, L) ==
     ELSE \A f \in InteriorFacets(c) :
            LET k1 == c.f2t[f][1]  k2 == c.f2t[f][2]
                s1 == SlotOf(c, k1, f)  s2 == SlotOf(c, k2, f) IN
-           OrientedEdge(c, k1, c.lf[s1][1], c.lf[s1][2]) = OrientedEdge(c, k2, c.lf[s2][1], c.lf[s2][2])
+           OrientedTangent(c, L, k1, s1) = OrientedTangent(c, L, k2, s2)
 
 DesignClauses(c, L) ==
   LET D == NumberDofsImpl(c, L) IN
